@@ -775,6 +775,35 @@ def duplicate_name_case(chk):
         shutil.rmtree(os.path.dirname(root), ignore_errors=True)
 
 
+def empty_leftover_case(chk):
+    """state left behind by an earlier invocation: a dependency's (unversioned) output directory already exists and is
+    EMPTY when `cond run` starts (the task had failed before writing anything); the dependency then runs and writes
+    its output -- the combine must expose it"""
+    files = {"COND": 'combine(name="all", deps=["//data:gen", ":other", ":inner"])\nrun_command(name="other", run="echo o > $COND_OUT/f")\n'
+                     'combine(name="inner", deps=[":other"])\n',
+             "data/COND": 'run_command(name="gen", run="echo g > $COND_OUT/f")\n'}
+    root = implrun.make_project(dict(files))
+    os.makedirs(os.path.join(root, "cond-out", "data", "gen.task"))
+    os.makedirs(os.path.join(root, "cond-out", "inner.task"))
+    res = run_cond_retry(chk, ["run", "//:all"], root)
+    chk.coverage["evaluations"] += 1
+    problems = []
+    if res.code != 0:
+        problems.append("exit %d: %s" % (res.code, res.err[-300:]))
+    for name, target in (("gen", os.path.join(root, "cond-out", "data", "gen.task")), ("other", os.path.join(root, "cond-out", "other.task")), ("inner", os.path.join(root, "cond-out", "inner.task"))):
+        entry = os.path.join(root, "cond-out", "all.task", name)
+        if not os.path.lexists(entry):
+            problems.append("entry %r is missing although the dependency's output directory is non-empty" % name)
+        elif os.path.realpath(entry) != os.path.realpath(target):
+            problems.append("entry %r resolves to %s, the dependency's directory is %s" % (name, os.path.realpath(entry), target))
+    for msg in problems:
+        chk.violation("impl-violation", "combine over a dependency whose output directory existed empty before the run: %s" % msg,
+                      {"input": {"kind": "files", "files": files, "argv": ["run", "//:all"], "precreated_empty": ["cond-out/data/gen.task", "cond-out/inner.task"]},
+                       "impl_observation": {"exit": res.code, "entries": sorted(os.listdir(os.path.join(root, "cond-out", "all.task"))) if os.path.isdir(os.path.join(root, "cond-out", "all.task")) else None}},
+                      match_key={"kind": "empty-leftover"})
+    shutil.rmtree(os.path.dirname(root), ignore_errors=True)
+
+
 def part_e2e(chk, tier, rng, only=None):
     preimport()
 
@@ -794,6 +823,7 @@ def part_e2e(chk, tier, rng, only=None):
         chk.count("e2e_depth", str(max(len([x for x in t.pkg.split("/") if x]) for t in tasks)))
     if only is None:
         duplicate_name_case(chk)
+        empty_leftover_case(chk)
     agree = compare_with_model(chk, "real runs", obss, DEFS_B % {"universe": clist([cstr(n) for n in UNIVERSE])})
     if obss:
         _l, o, _r = obss[len(obss) // 2]
@@ -829,6 +859,7 @@ def run(tier, seed, replay=None):
             part_paths(chk, tier)
         elif kind == "files":
             duplicate_name_case(chk)
+            empty_leftover_case(chk)
         else:
             print("replay: nothing to re-run (no input recorded): %s" % replay.get("summary"))
         return chk.finish()
